@@ -553,7 +553,16 @@ func bfsExec(j Job) Result {
 		return Result{OK: false, Info: e.Error()}
 	}
 	idx, _ := c07lib.IndexObs(c.Store)
-	return Result{OK: true, Key: mc.Hash(fmt.Sprintf("%d|%s|%s", c.Height(), k, idx))}
+	// the last block's certificate is part of the state: its results (slashes, rewards) and its signer bitmap
+	// (non-signers) are applied by the NEXT block's begin-block and live in the certificate, not in the state store
+	pending := ""
+	if qc, _ := c.LastQC(); qc != nil {
+		pending = fmt.Sprintf("%x", qc.ResultsHash)
+		if qc.Signature != nil {
+			pending += fmt.Sprintf("/%x", qc.Signature.Bitmap)
+		}
+	}
+	return Result{OK: true, Key: mc.Hash(fmt.Sprintf("%d|%s|%s|%s", c.Height(), k, idx, pending))}
 }
 
 // enumerate all template sequences of length 1..maxLen starting with first.
